@@ -71,17 +71,24 @@ Theorem C12_facts_order : check_order facts = true.
 Proof. exact facts_order. Qed.
 Print Assumptions C12_facts_order.
 
-(* girc, current source, modulo the listed facts (p_excl facts = known_findings ++ by_design) *)
-Theorem C12_girc_race_free_modulo_listed :
+(* girc, current source.  FULL statement: the two theorems below with p_excl facts = by_design
+   only.  It is FALSE of today's tree: six genuine defects (known_findings of
+   conf/C12.known.json, each with a witness in harness/witness/locks_test.go and a patch in
+   notes/proposed-fixes/) break the discipline, so the facts that exhibit them are excluded
+   and reported as KNOWN-FINDING on every check.  Proven (hence _partial): race freedom and
+   absence of lock cycles for all events that are not flagged as excluded.  Missing: the
+   excluded facts; with the six patches applied and known_findings = [] the same two
+   obligations close (checked on a patched copy, notes/selftest/README-C12.md). *)
+Theorem C12_girc_race_free_partial :
   forall traces, Forall (runs facts) traces ->
   forall s, msteps (init_state traces) s -> ~ race s.
 Proof. exact (C12_race_free_gen facts facts_locksets). Qed.
-Print Assumptions C12_girc_race_free_modulo_listed.
+Print Assumptions C12_girc_race_free_partial.
 
-Theorem C12_girc_no_lock_cycle_modulo_listed :
+Theorem C12_girc_no_lock_cycle_partial :
   forall traces, Forall (runs facts) traces ->
   forall s, msteps (init_state traces) s ->
     (forall i, ~ clos_trans nat (waits_for s) i i) /\
     (forall i t r, nth_error s i = Some t -> rest t = EYield false :: r -> hs t = nil).
 Proof. exact (C12_lock_order_gen facts facts_order). Qed.
-Print Assumptions C12_girc_no_lock_cycle_modulo_listed.
+Print Assumptions C12_girc_no_lock_cycle_partial.
